@@ -88,7 +88,12 @@ def build(vs):
     if t == 'linestring':
         return util.LineString([tuple(p) for p in vs[1]])
     if t == 'polygon':
-        return util.Polygon([tuple(p) for p in vs[1]])
+        return util.Polygon([tuple(p) for p in vs[1]], [[tuple(p) for p in ring] for ring in (vs[2] if len(vs) > 2 else [])] or None)
+    if t == 'adatetime':
+        # aware datetime: wall clock vs[1] (microseconds since 0001-01-01), zone = fixed offset in minutes or a harness rule zone
+        from vf import cols_harness
+        tz = cols_harness.ZONES[vs[2]] if isinstance(vs[2], str) else dtm.timezone(dtm.timedelta(minutes=vs[2]))
+        return (dtm.datetime(1, 1, 1) + dtm.timedelta(microseconds=vs[1])).replace(tzinfo=tz)
     if t == 'duration':
         return util.Duration(vs[1], vs[2], vs[3])
     if t == 'ipv4':
@@ -108,10 +113,50 @@ class Unprintable(Exception):
     pass
 
 
+def utc_reading(o):
+    """the naive UTC datetime of the instant of an aware datetime, by exact timedelta arithmetic (independent of utctimetuple)"""
+    return o.replace(tzinfo=None) - o.utcoffset()
+
+
+def gal_pt(p):
+    x, y = float(p[0]), float(p[1])
+    if x != x or y != y or abs(x) == float('inf') or abs(y) == float('inf'):
+        raise Unprintable('non-finite coordinate')
+    return '((%s, %s), (%s, %s))' % tuple(z(a) for a in float_dy(x) + float_dy(y))
+
+
+def gal_ring(coords):
+    return '[%s]' % '; '.join(gal_pt(p) for p in coords)
+
+
+WKT_NUM = r'[-+0-9.eE]+'
+
+
+def gal_wkt(s):
+    """the WKT text the driver produced -> Gallina wkt tokens"""
+    def ring(body):
+        pts = [q.split() for q in body.split(',')]
+        return '[%s]' % '; '.join(gal_pt((float(a), float(b))) for a, b in pts)
+    m = re.match(r'^POINT \((%s) (%s)\)$' % (WKT_NUM, WKT_NUM), s)
+    if m:
+        return '(JWkt (WPoint %s))' % gal_pt((float(m.group(1)), float(m.group(2))))
+    if s == 'LINESTRING EMPTY':
+        return '(JWkt WLineEmpty)'
+    if s == 'POLYGON EMPTY':
+        return '(JWkt WPolyEmpty)'
+    m = re.match(r'^LINESTRING \(([^()]*)\)$', s)
+    if m:
+        return '(JWkt (WLine %s))' % ring(m.group(1))
+    m = re.match(r'^POLYGON \((\([^()]*\)(, \([^()]*\))*)\)$', s)
+    if m:
+        return '(JWkt (WPoly [%s]))' % '; '.join(ring(r) for r in re.findall(r'\(([^()]*)\)', m.group(1)))
+    raise Unprintable('WKT text %r' % s[:60])
+
+
 def gal_g(o):
     """Python value -> Gallina rgval literal (leaves = the text Python prints for them)"""
     from cassandra import util
-    c = 'txt txt txt txt txt txt'
+    c = 'txt txt txt txt txt'
     if isinstance(o, bool):
         return '(GBool %s %s)' % (c, 'true' if o else 'false')
     if isinstance(o, int):
@@ -129,7 +174,7 @@ def gal_g(o):
         return '(GDecimal %s %s)' % (c, txt(str(o)))
     if isinstance(o, dtm.datetime):
         if o.tzinfo is not None:
-            raise Unprintable('aware datetime')
+            return '(GDatetimeAware %s %s %s)' % (c, txt(dtm.datetime.isoformat(o.replace(tzinfo=None))), txt(utc_reading(o).isoformat()))
         return '(GDatetime %s %s %s)' % (c, txt(dtm.datetime.isoformat(o)), 'false' if type(o) is dtm.datetime else 'true')
     if isinstance(o, dtm.date):
         return '(GDate %s %s)' % (c, txt(o.isoformat()))
@@ -139,8 +184,12 @@ def gal_g(o):
         return '(GTimedelta %s %s)' % (c, z(td_us(o)))
     if isinstance(o, uuid.UUID):
         return '(GUuid %s %s)' % (c, txt(str(o)))
-    if isinstance(o, (util.Point, util.LineString, util.Polygon)):
-        return '(GGeom %s %s)' % (c, txt(str(o)))
+    if isinstance(o, util.Point):
+        return '(GGeom %s (GeoPoint %s))' % (c, gal_pt((o.x, o.y)))
+    if isinstance(o, util.LineString):
+        return '(GGeom %s (GeoLine %s))' % (c, gal_ring(o.coords))
+    if isinstance(o, util.Polygon):
+        return '(GGeom %s (GeoPoly %s [%s]))' % (c, gal_ring(o.exterior.coords), '; '.join(gal_ring(r.coords) for r in o.interiors))
     if isinstance(o, util.Duration):
         return '(GDuration %s %s %s %s)' % (c, z(o.months), z(o.days), z(o.nanoseconds))
     if isinstance(o, list):
@@ -170,7 +219,7 @@ def gal_dur(s):
                'true' if sci else 'false'))
 
 
-def gal_j(j, duration=False):
+def gal_j(j, duration=False, wkt=False):
     """the JSON the real serializer produced -> Gallina json literal"""
     if j is None:
         return 'JNull'
@@ -181,7 +230,7 @@ def gal_j(j, duration=False):
     if isinstance(j, float):
         return '(JFloat %s %s)' % tuple(z(a) for a in float_dy(j))
     if isinstance(j, str):
-        return gal_dur(j) if duration else '(JStr %s)' % txt(j)
+        return gal_dur(j) if duration else gal_wkt(j) if wkt else '(JStr %s)' % txt(j)
     if isinstance(j, list):
         return '(JList [%s])' % '; '.join(gal_j(x) for x in j)
     if isinstance(j, dict):
@@ -197,7 +246,7 @@ def gal_j(j, duration=False):
             elif tag == 'dse:Duration':
                 inner = '(JDseDur %s %s %s)' % (gal_j(v['months']), gal_j(v['days']), gal_j(v['nanos']))
             else:
-                inner = gal_j(v, duration=(tag == 'gx:Duration'))
+                inner = gal_j(v, duration=(tag == 'gx:Duration'), wkt=tag in ('dse:Point', 'dse:LineString', 'dse:Polygon'))
             return '(JTyped %s %s)' % (TAGS[tag], inner)
         return '(JObj [%s])' % '; '.join('(%s, %s)' % (txt(k), gal_j(v)) for k, v in j.items())
     raise Unprintable(type(j).__name__)
